@@ -134,6 +134,11 @@ func readCSVToUDLChan(in io.Reader, cudL chan updownLine, cErr chan error, cRead
 		cudL <- udL
 	}
 
+	if header {
+		cErr <- errors.New("empty --target csv: is this the output of gofasta updown list?")
+		return
+	}
+
 	cReadDone <- true
 }
 
@@ -199,6 +204,10 @@ func readCSVToUDLList(in io.Reader) ([]updownLine, error) {
 
 		LudL = append(LudL, udL)
 		counter++
+	}
+
+	if header {
+		return make([]updownLine, 0), errors.New("empty --query csv: is this file the output of gofasta updown list?")
 	}
 
 	return LudL, nil
